@@ -120,7 +120,13 @@ func genServices(t *rapid.T, max int) []cfggen.Service {
 			}
 			s.SetValues = append(s.SetValues, v)
 		}
-		switch rapid.IntRange(0, 6).Draw(t, "match_kind") {
+		switch rapid.IntRange(0, 9).Draw(t, "match_kind") {
+		case 7:
+			// the attribute must be there with an empty value ("cmd=" of a shell session start)
+			s.Match = []cfggen.Value{{Name: rapid.SampledFrom([]string{"cmd", "protocol"}).Draw(t, "empty_match_name"), Values: []string{""}}}
+		case 8:
+			// the attribute must be there, whatever its value
+			s.Match = []cfggen.Value{{Name: rapid.SampledFrom([]string{"cmd", "protocol"}).Draw(t, "bare_match_name")}}
 		case 0:
 			s.Match = []cfggen.Value{{Name: "protocol", Values: []string{"ip"}}}
 		case 1:
